@@ -46,8 +46,10 @@ func linStep(st refBar, o Op, res string) []refBar {
 	switch o.K {
 	case "incr":
 		co = c09Op{k: "IncrInt64", n: o.N}
-	case "setcur":
+	case "setcur", "ewmaset":
 		co = c09Op{k: "SetCurrent", n: o.N}
+	case "ewma":
+		co = c09Op{k: "IncrInt64", n: o.N}
 	case "settotal":
 		co = c09Op{k: "settotal", n: o.N, flag: o.F}
 	case "trigger":
@@ -162,7 +164,7 @@ func c10Oracle(sp *Spec, x *X, res *mcrt.Result) (string, string) {
 			continue
 		}
 		switch o.K {
-		case "incr", "setcur", "settotal", "trigger", "refill", "abort", "cur", "comp", "abrt", "id":
+		case "incr", "setcur", "settotal", "trigger", "refill", "abort", "cur", "comp", "abrt", "id", "ewma", "ewmaset":
 			ops = append(ops, linOp{c, o})
 		}
 	}
@@ -192,6 +194,7 @@ func c10Programs(tier string) []*Spec {
 		{"terminal", 3, []Op{{K: "incr", N: 2}, {K: "abort"}, {K: "abrt"}, {K: "comp"}, {K: "cur"}}},
 		{"trigger", 0, []Op{{K: "incr", N: 1}, {K: "trigger"}, {K: "settotal", N: 2, F: true}, {K: "comp"}, {K: "cur"}, {K: "id"}}},
 		{"adopt", 0, []Op{{K: "incr", N: 5}, {K: "settotal", N: -1, F: true}, {K: "cur"}, {K: "settotal", N: -1}}},
+		{"ewma", 10, []Op{{K: "ewmaset", N: 5}, {K: "setcur", N: 6}, {K: "ewma", N: 1}, {K: "cur"}, {K: "comp"}}},
 	}
 	for _, al := range alphas {
 		n := len(al.ops)
@@ -245,7 +248,7 @@ func c10Programs(tier string) []*Spec {
 func init() {
 	register(&Family{
 		Property: "C10",
-		Rule: "linearizability: 2 (thorough also 3) client threads with 1..2 operations each on one shared bar from five alphabets (never-terminal: IncrBy 1/2, SetRefill, SetTotal, SetCurrent, Current, Completed; triggered: increments reaching the total; terminal: Abort racing with increments; trigger: EnableTriggerComplete/SetTotal(complete) racing with increments; adopt: SetTotal(-1, true/false) racing with IncrBy 5 and Current), plus a refresher thread (manual), ticks (auto) or no rendering, a second bar in half of the programs, and a canceller; every schedule within the deviation bound. " +
+		Rule: "linearizability: 2 (thorough also 3) client threads with 1..2 operations each on one shared bar from six alphabets (never-terminal: IncrBy 1/2, SetRefill, SetTotal, SetCurrent, Current, Completed; triggered: increments reaching the total; terminal: Abort racing with increments; trigger: EnableTriggerComplete/SetTotal(complete) racing with increments; adopt: SetTotal(-1, true/false) racing with IncrBy 5 and Current; ewma: EwmaSetCurrent, SetCurrent, EwmaIncrInt64 on a total of 10), plus a refresher thread (manual), ticks (auto) or no rendering, a second bar in half of the programs, and a canceller; every schedule within the deviation bound. " +
 			"Oracle: the invoke/return history of every execution (scheduler steps as timestamps) must have a linearization under the C09 reference model (exact search over all orders consistent with real time; for mutators issued after a terminal state both 'ignored' and 'applied to the raw counters' are accepted); main's reads after quiescence are part of the history, so lost or torn updates show up as an unexplainable Current.",
 		Items: func(tier string) []Item {
 			var items []Item
@@ -311,6 +314,41 @@ func c10RacePrograms(tier string) []*Spec {
 			sp.Clients = [][]Op{mut, {{K: "incr", B: 1, N: 1}, {K: "get", B: 0}, {K: "incr", B: 1, N: 4}}}
 			if rf == "manual" {
 				sp.Clients = append(sp.Clients, []Op{{K: "refresh"}, {K: "refresh"}, {K: "refresh"}, {K: "refresh"}})
+			}
+			out = append(out, sp)
+		}
+		// one thread-safe moving average shared by the ETA decorators of two bars
+		{
+			sp := &Spec{Name: "c10r-shared-average", Refresh: rf, Q: -1}
+			sp.Bars = []BarSpec{{Total: 5, App: []DecorSpec{{Builtin: "sharedavg-eta"}}}, {Total: 5, App: []DecorSpec{{Builtin: "sharedavg-eta"}}}}
+			sp.Main = []Op{{K: "add", B: 0}, {K: "add", B: 1}}
+			sp.Clients = [][]Op{{{K: "ewma", B: 0, N: 1}, {K: "ewma", B: 0, N: 4}}, {{K: "ewma", B: 1, N: 2}, {K: "ewma", B: 1, N: 3}}}
+			if rf == "manual" {
+				sp.Clients = append(sp.Clients, []Op{{K: "refresh"}, {K: "refresh"}, {K: "refresh"}})
+			}
+			out = append(out, sp)
+		}
+		// pop-completed mode: the container hands finished bars back to the heap manager with a new priority
+		{
+			sp := &Spec{Name: "c10r-pop", Refresh: rf, Q: -1, Pop: true}
+			sp.Bars = []BarSpec{{Total: 1}, {Total: 1}, {Total: 3}}
+			sp.Main = []Op{{K: "add", B: 0}, {K: "add", B: 1}, {K: "add", B: 2}}
+			sp.Clients = [][]Op{{{K: "incr", B: 1, N: 1}, {K: "setprio", B: 2, N: 4}}, {{K: "incr", B: 0, N: 1}}, {{K: "incr", B: 2, N: 1}, {K: "incr", B: 2, N: 2}}}
+			if rf == "manual" {
+				sp.Clients = append(sp.Clients, []Op{{K: "refresh"}, {K: "refresh"}, {K: "refresh"}, {K: "refresh"}, {K: "refresh"}})
+			}
+			out = append(out, sp)
+		}
+		// one BarExtender option value passed to several bars
+		{
+			sp := &Spec{Name: "c10r-shared-extender", Refresh: rf, Q: -1, SharedExtender: true}
+			sp.Bars = []BarSpec{{Total: 2, ExtRows: 1}, {Total: 2, ExtRows: 1}, {Total: 2, ExtRows: 1}}
+			sp.Main = []Op{{K: "add", B: 0}, {K: "add", B: 1}, {K: "add", B: 2}}
+			for i := 0; i < 3; i++ {
+				sp.Clients = append(sp.Clients, completeOps(i, 2))
+			}
+			if rf == "manual" {
+				sp.Clients = append(sp.Clients, []Op{{K: "refresh"}, {K: "refresh"}, {K: "refresh"}})
 			}
 			out = append(out, sp)
 		}
